@@ -237,7 +237,7 @@ kind-agnostic: a kind only decides single-shot/multishot and the opcode printed
 for its submissions. -/
 def kinds : List (String × Bool × String) := [
   ("read", false, "READ"), ("write", false, "WRITE"), ("sendzc", false, "SEND_ZC"),
-  ("mread", true, "READ_MULTISHOT"), ("readv", false, "READV"), ("writev", false, "WRITEV"),
+  ("mread", true, "READ_MULTISHOT"), ("mreado", true, "READ_MULTISHOT"), ("readv", false, "READV"), ("writev", false, "WRITEV"),
   ("sendto", false, "SEND"), ("sendmsgzc", false, "SENDMSG_ZC"), ("recvv", false, "RECVMSG"),
   -- plain socket I/O
   ("recv", false, "RECV"), ("send", false, "SEND"), ("recvfrom", false, "RECVMSG"),
